@@ -60,6 +60,7 @@ pub fn gen_plan(seed: u64, mode: TwinMode, thorough: bool) -> TwinPlan {
         allow_restart: mode == TwinMode::Backends,
         allow_seed: true,
         foreign_lock_pct: 0,
+        allow_empty_payload: mode == TwinMode::Backends,
     };
     let mut ops = seq::gen_ops(&mut r, &p, n_clients, &cfg, page_size.unwrap_or(4096));
     // rarely: one upload at (or just below) the 100 MiB size limit, so that the backends' own value
@@ -300,6 +301,7 @@ pub fn gen_iso(seed: u64, backend: Backend, entry: Entry, thorough: bool) -> Iso
         allow_restart: true,
         allow_seed: true,
         foreign_lock_pct: 0,
+        allow_empty_payload: true,
     };
     let mut ops = seq::gen_ops(&mut r, &p, n_clients, &cfg, page_size.unwrap_or(4096));
     // quote foreign ids on purpose: rewrite a share of the id arguments
